@@ -1,7 +1,9 @@
 import DarkluaModel.Shared.AstSexp
 import DarkluaModel.Shared.FloatOps
 import DarkluaModel.Rules.EmptyDo
-import DarkluaModel.Rules.EvalLite
+import DarkluaModel.Rules.EvalC08
+import DarkluaModel.Rules.EvaluatorFloat
+import DarkluaModel.C08.Model
 import DarkluaModel.Rules.UnusedWhile
 import DarkluaModel.Rules.UnusedIfBranch
 import DarkluaModel.Rules.FilterEarlyReturn
@@ -13,14 +15,15 @@ import DarkluaModel.Rules.ConvertIndexToField
 import DarkluaModel.Rules.NilDeclaration
 import DarkluaModel.Rules.UnusedVariable
 /-! Line-protocol handlers for property C01:
-* `c01.rule <rule-name-hex> <block>` → transformed block, or `evallite-uncovered` when the rule
-  needs the static evaluator on an expression `Rules/EvalLite.lean` does not cover;
+* `c01.rule <rule-name-hex> <block>` → transformed block (the evaluator instance is the C08 model
+  over IEEE doubles, `Rules/EvalC08.lean`);
+* `c01.region <rule-name-hex> <block>` → `in` / `out <why>`: the hypothesis `H` of the rule's theorem;
 * `c01.rules` → the modelled rule names. -/
 namespace DarkluaModel.C01
 open DarkluaModel.Rules
 
 /-- the evaluator instance the driver runs the rule models with -/
-def driverApi : EvalApi := EvalLite.api floatOps
+def driverApi : EvalApi := c08Api floatOps Evaluator.floatEvalOps
 
 /-- rules that consult the evaluator -/
 def usesEvaluator (name : String) : Bool :=
@@ -49,10 +52,20 @@ def modelled : List String :=
    "remove_method_definition", "remove_function_call_parens", "remove_spaces", "remove_comments", "compute_expression",
    "convert_index_to_field", "remove_nil_declaration", "remove_unused_variable"]
 
+/-- C08's proved region `H8` on every expression node of the block (F1/F2 numeric equality by
+epsilon, F3 number formatting in `..`, F4 opaque interpolated segments, reference equality of
+fresh tables across effects); `none` = inside -/
+def h8Region (b : Block) : Option String :=
+  let h : Expr → Option String → Expr × Option String := fun e s =>
+    (e, match s with
+      | some w => some w
+      | none => if C08.h8 Evaluator.floatEvalOps e then none else some "H8 of the evaluator (C08: F1-F4)")
+  (Visitor.runDefault ({ expr := h, pref := h, target := h, node := h } : Processor (Option String)) b none).2
+
 /-- the hypothesis `H` of the rule's theorem on this block: `in`, or `out <why>` -/
 def region (name : String) (b : Block) : String :=
   if usesEvaluator name then
-    match EvalLite.evalRegion floatOps b with
+    match h8Region b with
     | some why => "out " ++ why
     | none =>
       if name == "compute_expression" && Rules.ComputeExpression.outsideH driverApi b then
@@ -73,11 +86,9 @@ def handle (op : String) (args : List String) : String :=
   | "rule", some [name, block] =>
     match nameOfSexp? name, Block.ofSexp? block with
     | some n, some b =>
-      if usesEvaluator n && !EvalLite.covers floatOps b then "evallite-uncovered"
-      else
-        match applyRule n b with
-        | some b' => b'.toSexp.toString
-        | none => "unknown-rule"
+      match applyRule n b with
+      | some b' => b'.toSexp.toString
+      | none => "unknown-rule"
     | _, _ => "bad-request"
   | "region", some [name, block] =>
     match nameOfSexp? name, Block.ofSexp? block with
